@@ -843,6 +843,70 @@ example : ((({ numHashes := 2, complete := [false, false] } : Sys).run
     [.request 0 1 true, .idleAdd 1]).bystander (.setConf 0 false false)).rs.pieces =
     [(0, { prio := [1], done := some 0 })] := by decide
 
+/-! ## the idle prefetcher as a requester -/
+
+theorem idleAdd_empty (s : RS) (j i : Nat) (e : Entry)
+    (h : find (add s j idlePriority false).1.pieces i = some e) (hp : e.prio = []) :
+    (∃ e0, find s.pieces i = some e0 ∧ e0.prio = []) ∨ i = j := by
+  obtain ⟨d, hd⟩ := find_add s j idlePriority false i
+  rw [hd] at h
+  by_cases hij : i = j
+  · exact Or.inr hij
+  · simp [hij] at h
+    exact Or.inl ⟨e, h, hp⟩
+
+theorem idlePick_complete (picked : List Nat) : ∀ s : Sys, (s.idlePick picked).complete = s.complete := by
+  induction picked with
+  | nil => intro s; rfl
+  | cons j r ih =>
+    intro s
+    unfold Sys.idlePick
+    simp only [List.foldl_cons]
+    have := ih (if s.complete[j]? = some false then s.step (.idleAdd j) else s)
+    unfold Sys.idlePick at this
+    rw [this]
+    split <;> rfl
+
+/-- **the idle prefetcher only wants incomplete pieces.**  After a run of the idle picker —
+    whatever pieces, in whatever order and number, the scheduler chose — every priority-less
+    (idle) entry either was there before or names a piece that is NOT complete: the picker
+    never enters a verified piece into the request set.  (An idle entry whose piece completes
+    later is retired by the notification of that completion, `C10_idle_retired`; the `rdx idle`
+    stream runs the real periodicRequest/pickIdlePieces on torrents in every completion state
+    and checks the same on the real request set.) -/
+theorem C10_idle_only_incomplete (picked : List Nat) : ∀ (s : Sys) (i : Nat) (e : Entry),
+    find (s.idlePick picked).rs.pieces i = some e → e.prio = [] →
+    (∃ e0, find s.rs.pieces i = some e0 ∧ e0.prio = []) ∨ s.complete[i]? = some false := by
+  induction picked with
+  | nil => intro s i e h hp; exact Or.inl ⟨e, h, hp⟩
+  | cons j r ih =>
+    intro s i e h hp
+    unfold Sys.idlePick at h
+    simp only [List.foldl_cons] at h
+    by_cases hg : s.complete[j]? = some false
+    · rw [if_pos hg] at h
+      have hc : (s.step (.idleAdd j)).complete = s.complete := rfl
+      rcases ih (s.step (.idleAdd j)) i e (by unfold Sys.idlePick; exact h) hp with ⟨e0, h0, hp0⟩ | h1
+      · rcases idleAdd_empty s.rs j i e0 h0 hp0 with h2 | h2
+        · exact Or.inl h2
+        · subst h2; exact Or.inr hg
+      · rw [hc] at h1; exact Or.inr h1
+    · rw [if_neg hg] at h
+      exact ih s i e (by unfold Sys.idlePick; exact h) hp
+
+/-- an idle entry is retired by the completion notification of its piece -/
+theorem C10_idle_retired (s : RS) (i : Nat) (r : Entry) (h : find s.pieces i = some r)
+    (hp : r.prio = []) : find (torHave s i true).pieces i = none := by
+  have := find_done s i i
+  rw [if_pos ⟨rfl, r, h, hp⟩] at this
+  simp only [torHave, if_true]
+  cases hf : find (done s i).pieces i with
+  | none => rfl
+  | some e => rw [hf] at this; simp at this
+
+example : ((({ numHashes := 3, complete := [true, false, false] } : Sys).idlePick [0, 1, 5]).rs.pieces) =
+    [(1, { prio := [], done := none })] := by decide
+
 /-! ## the reader as a consumer (tor/reader.go, repaired) -/
 open Storrent.Reader in
 /-- **reader balance — withdrawal.**  `request(-1, -1)` (what `Close`, EOF, cancellation and a
